@@ -401,6 +401,9 @@ func c17rEnvs(full bool, level int) []c17rEnv {
 	var out []c17rEnv
 	if !full {
 		hl, tl := c17lib.HeaderLists(0), c17lib.TrailerLists(0)
+		if level == 0 {
+			return []c17rEnv{{0, nil, nil}, {0, hl[2], tl[2]}, {404, nil, tl[2]}, {404, hl[2], nil}}
+		}
 		for _, st := range []uint32{0, 404} {
 			for _, h := range [][]*conformancev1.Header{hl[0], hl[2]} {
 				for _, tr := range [][]*conformancev1.Header{tl[0], tl[2]} {
@@ -483,7 +486,7 @@ func c17rEnumerate(thorough bool, visit func(grid, proto, script string, raw *co
 	lvl := 0
 	if thorough {
 		lvl = 1
-		envScripts = append(envScripts, "HTR", "RHTWBF", "BR")
+		envScripts = append(envScripts, "RHTWBF", "BR")
 	}
 	for _, e := range c17rEnvs(true, lvl) {
 		for _, b := range c17lib.Bodies(1) {
@@ -517,7 +520,7 @@ func c17rEnumerate(thorough bool, visit func(grid, proto, script string, raw *co
 func TestVerifC17RawResponse(t *testing.T) {
 	r := rep.New("c17-rawresp")
 	defer r.Write()
-	r.Rule = "case = (protocol h1|h2tls|h2c) x (handler script over H,T,W,B,F,R) x (RawHTTPResponse: status x header list x trailer list x body none|unary|stream); grid S = all scripts up to length 3 (quick) / 4 (thorough) x 8 definitions, grid E = all status x header x trailer combinations x medium body set x 2-5 scripts, grid B (thorough) = full body alphabet x 8 status/header/trailer combinations x 2 scripts; a case is non-trivial when distinct (proto, script, definition); oracle = reference arbitration model + independent body decoder on what a plain net/http client receives"
+	r.Rule = "case = (protocol h1|h2tls|h2c) x (handler script over H,T,W,B,F,R) x (RawHTTPResponse: status x header list x trailer list x body none|unary|stream); grid S = all scripts up to length 3 (quick) / 4 (thorough) x 8 definitions, grid E = all status x header x trailer combinations x medium body set x 2-4 scripts, grid B (thorough) = full body alphabet x 4 status/header/trailer combinations x 2 scripts; a case is non-trivial when distinct (proto, script, definition); oracle = reference arbitration model + independent body decoder on what a plain net/http client receives"
 
 	servers := c17rStart(rawResponder(http.HandlerFunc(c17rInner)))
 	defer func() {
